@@ -969,6 +969,16 @@ func Elapsed() int64 {
 	return S.now
 }
 
+// SetStepBudget caps the run at n further steps from now (termination oracle of a
+// single operation: the cap moves with every call).
+//
+//go:norace
+func SetStepBudget(n int64) {
+	if S != nil {
+		S.cfg.MaxSteps = S.steps + n
+	}
+}
+
 // QuantumNs returns the virtual CPU time charged per yield in this run.
 //
 //go:norace
